@@ -12,6 +12,7 @@
 -/
 import Snmp.Model.Emit
 import Snmp.Model.BerSpec
+import Snmp.Model.RawDigest
 namespace Snmp.Usm
 open Snmp.Ber
 
@@ -87,6 +88,12 @@ structure InMsg where
   m : Spec.V3Msg
   zeroed : Option Bytes
   deriving Repr, Inhabited
+
+/-- the received message as `V3MPM.decode` hands it on: the fields `Message.decode` extracted and
+    the datagram itself (`Message.raw`), from which `verify_authentication` derives the MAC input
+    with `reset_raw_digest` (an error there leaves nothing to compare the digest with) -/
+def inMsgOfWire (m : Spec.V3Msg) (datagram : Bytes) : InMsg :=
+  ⟨m, match RawDigest.resetRawDigest datagram with | .ok z => some z | .error _ => none⟩
 
 /-- `validate_usm_message`: the PDU classes it looks into (generated from its `isinstance` guard;
     the empty list stands for "every PDU") and the usmStats objects whose presence is an error -/
